@@ -665,9 +665,11 @@ fn expand_brace_range(tokens: &mut types::Tokens) {
             incr = 1;
         }
 
+        // count in i64: `n += incr` must not overflow next to the i32 limits
+        let (end, incr) = (i64::from(end), i64::from(incr));
         let mut result: Vec<String> = Vec::new();
-        let mut n = start;
-        if start > end {
+        let mut n = i64::from(start);
+        if n > end {
             while n >= end {
                 result.push(format!("{}", n));
                 n -= incr;
